@@ -3,6 +3,7 @@ package props
 import (
 	"fmt"
 	"go/types"
+	"ocivet/internal/bounds"
 	"os"
 	"sort"
 	"strings"
@@ -45,6 +46,7 @@ func Prepare(c *core.Ctx) {
 	facts.CanonFuncString = m.funcString
 	m.build(c)
 	buildProgIndex(c)
+	bounds.PrivateCallSites = privateCallSites
 	load.RoleFunc = func(key string) *ssa.Function { return m.fn[key] }
 	load.RoleType = func(pkgPath, name string) *types.Named {
 		for tn, cn := range m.typeCanon {
